@@ -181,8 +181,18 @@ def gen_case(rng):
     vocab = PLAIN * 2 + META + UNI + [""]
     segs = [rng.choice(vocab) for _ in range(nseg)]
     meta = {"meta_literal": False, "invalid": 0, "templates": []}
-    for _ in range(rng.choice([0, 0, 1, 2, 3])):
-        lines.append("mw m%d" % rng.randrange(4))
+    if rng.random() < 0.15:
+        # Use(chain...) with a slice the application owns (spare capacity), more middlewares afterwards, and then the
+        # application goes on using ITS slice: none of that may show in the router's chain
+        n = rng.choice([1, 2, 3])
+        lines.append("usev %d %s" % (rng.choice([0, 1, 2, 4]), ",".join("u%d" % i for i in range(n))))
+        for _ in range(rng.choice([0, 1, 1, 2])):
+            lines.append("mw m%d" % rng.randrange(4))
+        for _ in range(rng.choice([1, 2])):
+            lines.append(rng.choice(["callerappend s%d" % rng.randrange(3), "callerset %d c%d" % (rng.randrange(n), rng.randrange(3))]))
+    else:
+        for _ in range(rng.choice([0, 0, 1, 2, 3])):
+            lines.append("mw m%d" % rng.randrange(4))
     if rng.random() < 0.25:
         lines.append(rng.choice(["default d1", "default nil", "defaultf d2", "defaultf nil", "default d3"]))
     nroutes = rng.choice([1, 2, 3, 3, 4, 5, 6, 8])
@@ -301,6 +311,13 @@ def gen_systematic():
                     lines.append("serve %s" % (hx(q) if q else "none"))
             lines += ["mw m1"] + ["serve %s" % (hx(q) if q else "none") for q in reversed(ps)]
             cases.append((lines, {"meta_literal": False, "invalid": 0, "templates": ts}))
+    # middlewares handed over as a caller-owned slice with spare capacity; the caller keeps using its slice
+    for spare in (0, 1, 3):
+        for names in ("u0", "u0,u1"):
+            for after in (["mw x", "callerappend y"], ["callerset 0 z"], ["mw x", "mw w", "callerappend y", "callerset 0 z"], ["callerappend y", "mw x"]):
+                lines = ["reset", "route %s h1" % hx("/a"), "usev %d %s" % (spare, names)] + after + \
+                        ["serve %s" % hx("/a"), "serve %s" % hx("/zz"), "mw last", "serve %s" % hx("/a")]
+                cases.append((lines, {"meta_literal": False, "invalid": 0, "templates": ["/a"]}))
     for d in ["default nil", "defaultf nil", "default d1", "defaultf d2"]:
         lines = ["reset", "mw m1", "mw m2", d, "serve none", "serve %s" % hx("/"), "serve %s" % hx("/a"), "route - h1", "serve none",
                  "serve %s" % hx("/"), "serve %s" % hx("//"), "unroute %s" % hx("/"), "unroute -", "serve none", "routef %s nil" % hx("/a"),
@@ -626,42 +643,49 @@ def evaluate(ctx, art, cases, n_random):
 
 
 def race_evidence(ctx, art_race):
-    """concurrent Handle/HandleRemove/DefaultHandle/ServeCOAP under the race detector (evidence)"""
+    """concurrent Handle/HandleRemove/DefaultHandle/ServeCOAP under the race detector (evidence), and concurrent writers
+    on disjoint patterns whose joint result is known (lost updates)"""
     ms = 8000 if ctx.tier == "thorough" else 1500
+    rounds = 4000 if ctx.tier == "thorough" else 600
     inp = os.path.join(ctx.work, "race.in")
     outp = os.path.join(ctx.work, "race.out")
-    line = "race %d %d 3" % (ctx.seed, ms)
-    open(inp, "w").write(line + "\n")
+    lines = ["race %d %d 3" % (ctx.seed, ms), "writers %d %d 4" % (ctx.seed, rounds), "writers %d %d 2" % (ctx.seed + 1, rounds)]
+    open(inp, "w").write("\n".join(lines) + "\n")
     if os.path.exists(outp):
         os.remove(outp)
     e = dict(os.environ, VERIF_IN=inp, VERIF_OUT=outp, GORACE="halt_on_error=0 history_size=2")
     try:
-        p = subprocess.run([art_race, "-test.run", "^TestC17Race$", "-test.timeout", "120s"], cwd=ctx.work, env=e,
-                           stdout=subprocess.PIPE, stderr=subprocess.STDOUT, text=True, timeout=180)
+        p = subprocess.run([art_race, "-test.run", "^TestC17Race$", "-test.timeout", "300s"], cwd=ctx.work, env=e,
+                           stdout=subprocess.PIPE, stderr=subprocess.STDOUT, text=True, timeout=400)
     except subprocess.TimeoutExpired:
         ctx.broken.append(("correspondence", "c17race timed out", ""))
         return
-    out = open(outp).read().split("\n")[0] if os.path.exists(outp) else ""
+    outs = open(outp).read().splitlines() if os.path.exists(outp) else []
     log = p.stdout
     if "DATA RACE" in log:
         import re as _re
         funcs = sorted(set(_re.findall(r"go-coap/v3/mux\.(\(\*?\w+\)\.\w+|\w+)\(", log)))[:6]
         ctx.violations.append(common.Violation("data-race", "C17:data-race:" + "+".join(funcs),
                                                "race detector report during concurrent Handle/HandleRemove/DefaultHandle/ServeCOAP: " + ",".join(funcs),
-                                               {"input": [line], "race": True, "report": log[:3000]}))
+                                               {"input": lines, "race": True, "report": log[:3000]}))
         return
-    if out.startswith("bad "):
-        clause = out.split()[1].split("_")[0]
-        ctx.violations.append(common.Violation("concurrent-" + clause, "C17:concurrent:" + clause, out[:300], {"input": [line], "race": True}))
+    for line, out in zip(lines, outs):
+        if out.startswith("bad "):
+            clause = out.split()[1].split("_")[0]
+            ctx.violations.append(common.Violation("concurrent-" + clause, "C17:concurrent:" + clause,
+                                                   "%s -> %s" % (line, out[:400].replace("_", " ")), {"input": [line], "race": True}))
+            return
+    if p.returncode != 0 or len(outs) != len(lines) or not all(o.startswith("ok ") for o in outs):
+        ctx.broken.append(("correspondence", "c17race failed rc=%d" % p.returncode, ("\n".join(outs) + "\n" + log)[-1500:]))
         return
-    if p.returncode != 0 or not out.startswith("ok "):
-        ctx.broken.append(("correspondence", "c17race failed rc=%d" % p.returncode, (out + "\n" + log)[-1500:]))
-        return
-    kv = dict(x.split("=") for x in out.split()[1:])
+    kv = dict(x.split("=") for x in outs[0].split()[1:])
+    wops = sum(int(dict(x.split("=") for x in o.split()[1:])["operations"]) for o in outs[1:])
     ctx.cov["race_run"] = {"milliseconds": ms, "dispatches": int(kv.get("serves", 0)), "mutations": int(kv.get("mutations", 0)),
-                           "race_reports": 0}
+                           "race_reports": 0, "concurrent_writer_rounds": 2 * rounds, "concurrent_writer_operations": wops}
     ctx.count("race-dispatches", int(kv.get("serves", 0)))
-    ctx.notes.append("race detector run: %s (evidence, not proof; the proof part is lock_discipline over Generated/RouterLockShape)" % out)
+    ctx.count("concurrent-writer-operations", wops)
+    ctx.notes.append("race detector run: %s; concurrent writers on disjoint patterns: %s (evidence, not proof; the proof part is "
+                     "lock_discipline / route_table_updated_in_place over Generated/RouterLockShape)" % (outs[0], "; ".join(outs[1:])))
 
 
 def prepare(ctx):
